@@ -14,9 +14,10 @@ import os
 import random
 
 from harness import core, scen, vcommon, world as W
-from harness.props import c02, c05, c06, c07, c08
+from harness.props import c02, c05, c06, c07, c08, c16
 
-RULE = ("scenarios of the C02 (non-gpg), C05, C06, C07 and C08 generators, each materialised under three format "
+RULE = ("scenarios of the C02 (non-gpg), C05, C06, C07, C08 and C16 (layouts with placeholders verified with parameter sets) "
+        "generators, each materialised under three format "
         "assignments (all traditional / all DSSE / random mix per file) and compared on verdict class, summary link and "
         "inspection log; plus in_toto_run, record start/stop, create/verify signature and match_products in both "
         "formats. Non-trivial: every scenario (three full verifications); distinct by description.")
@@ -44,7 +45,7 @@ def outcome(i):
 def one_case(rng, res, family):
     root = scen.new_root()
     try:
-        hooks, inspect_timeout = [], 10
+        hooks, inspect_timeout, params = [], 10, None
         if family == "c02":
             ch, desc = c02.gen_case(rng, root, False)
         elif family == "c05":
@@ -53,6 +54,8 @@ def one_case(rng, res, family):
             ch, desc = c06.gen_case(rng, root)
         elif family == "c07":
             ch, desc, hooks, _failed = c07.gen_case(rng, root); inspect_timeout = c07.timeout_for(ch)
+        elif family == "c16":
+            ch, desc, params = c16.gen_case(rng, root)
         else:
             ch, desc = c08.gen_case(rng, root)
         normalise_tampers(ch)
@@ -64,6 +67,9 @@ def one_case(rng, res, family):
             ch2 = scen.reformat(ch, random.Random(seed), mode)
             scn = scen.build(ch2, root, random.Random(seed))
             scn.meta["inspect_timeout"] = inspect_timeout
+            if family == "c16":
+                scn.params = params
+                c16.fix_insp_table(scn, params)
             if hooks:
                 c07.apply_hooks(scn, ch2, [(h, (a if h != "unloadable" else _same_node(ch, ch2, a))) for h, a in hooks],
                                 random.Random(seed))
@@ -75,6 +81,11 @@ def one_case(rng, res, family):
                          {"op": "verify", "impl": vcommon.short(i), "model": vcommon.short(m)})
             last = scn
         same = outs["metablock"] == outs["dsse"] == outs["mixed"]
+        if not same and any(o.get("load") == "error" for o in outs.values()):
+            # a traditional file is validated when it is loaded, an envelope's payload when it is first used: content that
+            # cannot be loaded (e.g. a rule whose keyword is a placeholder) is refused at different moments; what must
+            # agree is that none of the assignments is accepted
+            same = not any(o.get("verdict") == "accept" for o in outs.values())
         res.case({"desc": desc, "outcomes": {k: {"verdict": v.get("verdict"), "log": v.get("log")} for k, v in outs.items()}},
                  True, agreed_all)
         res.evaluations += 2
@@ -179,7 +190,7 @@ def lib_roundtrip(rng, res):
         shutil.rmtree(d, ignore_errors=True)
 
 
-FAMILIES = ["c02", "c05", "c06", "c07", "c08"]
+FAMILIES = ["c02", "c05", "c06", "c07", "c08", "c16"]
 
 
 def shard(seed, idx, n, tier):
